@@ -54,6 +54,73 @@ impl Protocol for Look {
     }
 }
 
+/// A machine with nothing but a tap that puts UDP datagrams for the DNS server's port on the wire whose payload
+/// is not a DNS message (C14: dropped at that layer, nothing crashes, the lookups of the others are served)
+struct Junk {
+    frames: Vec<(u64, Vec<u8>)>,
+}
+
+#[async_trait::async_trait]
+impl Protocol for Junk {
+    async fn start(&self, _sd: Shutdown, initialized: Arc<Barrier>, machine: Arc<Machine>) -> Result<(), StartError> {
+        initialized.wait().await;
+        let sess = machine.protocol::<Pci>().unwrap().open(0);
+        let mut now = 0u64;
+        for (k, (at, payload)) in self.frames.iter().enumerate() {
+            if *at > now {
+                tokio::time::sleep(Duration::from_micros(at - now)).await;
+                now = *at;
+            }
+            let tl = (28 + payload.len()) as u16;
+            let ul = (8 + payload.len()) as u16;
+            // even frames: a "query" from the tap-only machine to the server; odd frames: a "reply" that claims to come
+            // from the server, to the first ephemeral port of the first client
+            let to_client = k % 2 == 1;
+            let (src, dst, sport, dport) = if to_client { ([1u8, 3, 3, 7], [10u8, 1, 0, 10], 53u16, 49152u16) } else { ([10, 1, 0, 250], [1, 3, 3, 7], 4000 + k as u16, 53) };
+            let mut f = vec![0x45, 0, (tl >> 8) as u8, tl as u8, 0, k as u8, 0x40, 0, 30, 17, 0, 0];
+            f.extend(src);
+            f.extend(dst);
+            f.extend(sport.to_be_bytes());
+            f.extend(dport.to_be_bytes());
+            f.extend(ul.to_be_bytes());
+            f.extend([0, 0]);
+            f.extend(payload);
+            let r = sess.send_pci(Message::new(f), None, TypeId::of::<Ipv4>());
+            emit(json!({"ev":"junk","k":k,"len":payload.len(),"ok":r.is_ok()}));
+        }
+        Ok(())
+    }
+    fn demux(&self, _m: Message, _c: Arc<dyn Session>, _ctl: Control, _ma: Arc<Machine>) -> Result<(), DemuxError> {
+        Ok(())
+    }
+}
+
+fn junk_payload(rng: &mut SmallRng) -> Vec<u8> {
+    // (random bytes never contain the delimiter, so that they cannot happen to be a well-formed message)
+    let mut b = junk_payload0(rng);
+    let keep = b.len() >= 17 && b[12..16] == *b"ab.c";
+    if !keep {
+        for x in b.iter_mut() {
+            if *x == b' ' {
+                *x = b'!';
+            }
+        }
+    }
+    b
+}
+
+fn junk_payload0(rng: &mut SmallRng) -> Vec<u8> {
+    match rng.gen_range(0..7) {
+        0 => vec![],
+        1 => (0..rng.gen_range(1..12usize)).map(|_| rng.gen()).collect(),                 // shorter than a DNS header
+        2 => (0..12).map(|_| rng.gen()).collect(),                                          // a header and nothing else
+        3 => { let mut b: Vec<u8> = (0..12).map(|_| rng.gen()).collect(); b.extend(b"name-without-the-delimiter"); b }
+        4 => { let mut b: Vec<u8> = (0..12).map(|_| rng.gen()).collect(); b.extend(b"ab.c"); b.push(b' '); b.extend([0, 1]); b } // truncated question
+        5 => { let mut b: Vec<u8> = (0..12).map(|_| rng.gen()).collect(); b.extend([0xff, 0xfe, 0xfd]); b.push(b' '); b.extend([0, 1, 0, 1]); b.extend([0xff, 0xfe]); b.push(b' '); b.extend([0, 1, 0, 1, 0, 0, 0, 9, 0, 4, 1, 2, 3]); b } // not UTF-8, short rdata
+        _ => (0..rng.gen_range(13..90usize)).map(|_| rng.gen()).collect(),
+    }
+}
+
 fn rand_name(rng: &mut SmallRng, k: usize, long: bool) -> String {
     let chars: &[u8] = b"abcdefghijklmnopqrstuvwxyzABCXYZ0123456789.-_~!$&'()*+,;=:@/?#[]%^`{|}\"<>\\";
     let n = if long { [rng.gen_range(25..=40), rng.gen_range(25..=40), 100, 200, 239, 240, 241, 242, 250][rng.gen_range(0..9)] } else { [1usize, 2, 8, 24, 23, 12][rng.gen_range(0..6)] };
@@ -64,7 +131,7 @@ fn rand_name(rng: &mut SmallRng, k: usize, long: bool) -> String {
     s
 }
 
-pub fn scenario(run: u64, rng: &mut SmallRng, long_names: bool) {
+pub fn scenario(run: u64, rng: &mut SmallRng, long_names: bool, attack: bool) {
     let net = Network::basic();
     let nn = rng.gen_range(1..=3usize);
     let names: Vec<String> = (0..nn).map(|k| rand_name(rng, k, long_names && k == 0)).collect();
@@ -78,9 +145,15 @@ pub fn scenario(run: u64, rng: &mut SmallRng, long_names: bool) {
             lid += 1;
         }
     }
-    begin_run(run, json!({"names": names.iter().map(|n| n.len()).collect::<Vec<_>>(), "ips": ips, "nc": nc}));
+    let junk: Vec<(u64, Vec<u8>)> = if attack {
+        (0..rng.gen_range(1..=4usize)).map(|_| ([0u64, 500, 100_000, 450_000][rng.gen_range(0..4)], junk_payload(rng))).collect()
+    } else {
+        vec![]
+    };
+    begin_run(run, json!({"names": names.iter().map(|n| n.len()).collect::<Vec<_>>(), "ips": ips, "nc": nc, "junk": junk.len()}));
     let table = || -> IpTable<Recipient> { [("0.0.0.0/0", Recipient::new(0, None))].into_iter().collect() };
-    let server = DnsServer::new(lid as u16);
+    // (the server serves a fixed number of datagrams and then stops accepting: the junk ones count)
+    let server = DnsServer::new(lid as u16 + junk.len() as u16);
     for (n, ip) in names.iter().zip(ips.iter()) {
         server.add_mapping(n.clone(), Ipv4Address::new(*ip));
     }
@@ -107,6 +180,11 @@ pub fn scenario(run: u64, rng: &mut SmallRng, long_names: bool) {
                 .arc(),
         );
     }
+    if attack {
+        let mut frames = junk.clone();
+        frames.sort_by_key(|f| f.0);
+        machines.push(Machine::new().with(Pci::new([net.clone()])).with(Junk { frames }).arc());
+    }
     let plan = Mutex::new(SmallRng::seed_from_u64(rng.gen()));
     let names2 = names.clone();
     elvis_core::network::verif::set_frame_hook(Some(Arc::new(move |f: &elvis_core::network::verif::FrameInfo| {
@@ -115,7 +193,7 @@ pub fn scenario(run: u64, rng: &mut SmallRng, long_names: bool) {
             return vec![Duration::ZERO];
         }
         let (sport, dport) = (u16::from_be_bytes([b[20], b[21]]), u16::from_be_bytes([b[22], b[23]]));
-        if sport != 53 && dport != 53 {
+        if (sport != 53 && dport != 53) || b[12..16] == [10, 1, 0, 250] || b[16..20] == [10, 1, 0, 250] || (f.sender as usize) > nc {
             return vec![Duration::ZERO];
         }
         let d = &b[28..];
@@ -155,7 +233,7 @@ pub fn drive(a: &Args) {
     let long = a.flag("long-names");
     for run in a.u64("from", 0)..runs {
         let mut rng = SmallRng::seed_from_u64(seed.wrapping_mul(86028121).wrapping_add(run));
-        scenario(run, &mut rng, long);
+        scenario(run, &mut rng, long, a.flag("attack"));
         flush_to(&out, true);
     }
     println!("{}", json!({"runs": runs}));
